@@ -17,6 +17,10 @@ def run(ctx, R, tier):
     in_chunk(F, R)
     # 'if the listener was dropped the track is silent': dropped listeners are removed (the C08 drain / sweep / drop rules)
     from . import c08
+    # listener pose and emitter position belong to the same chunk: modulators, clocks and listeners advance in the documented
+    # order, each once, by this chunk's duration (the C05 rule)
+    from .c05 import order as chunk_order
+    chunk_order(F, R)
     c08.drain(F, R)
     c08.sweep(F, R)
     c08.drops(F, R)
